@@ -33,6 +33,10 @@ oracle; in Coq the proved closed form (one row per distinct id, row = image of t
 c10_big_sound) on the row count and sampled ids.  (b) sync_individual of an existing and of a new id while a second connection
 (same process, real sqlite3) holds BEGIN EXCLUSIVE until the store has been refused 3..10 times in a row or has returned
 (`gen_lock_history`): after the release the view must show the synchronised data.
+
+Red-team round 4: several stores in ONE process with artap's own ids (`multi_store_case`): an older store B, a run into store A, B or
+A read through a view / a read-mode / a write-mode store, the run on A continued: the ids of the recorded individuals stay unique
+(reading a store never moves Individual.counter backwards) and every recorded individual has its own row with its own data.
 """
 import gc
 import json
@@ -1480,6 +1484,108 @@ def run(ctx):
         except OSError:
             pass
 
+    # ---- several stores in ONE process (red-team round 4) -----------------------------------------------------------------
+    # An older study is recorded into store B; a run of problem A is recorded into store A; B (or A) is READ - a read-mode view, a
+    # read-mode store, a write-mode store of another problem object, any number of times -; the run on problem A / store A is
+    # continued.  Ids come from the process-wide Individual.counter (never set by the harness here): reading a store may only move it
+    # forward (the unchanged from_dict draws one id per row it rebuilds), so the ids of the live recorded individuals stay unique and
+    # after the second run every recorded individual of both runs has its own row with its own data (hypothesis `NoDup (map i_id
+    # final)` of C10_run_store_complete).
+    def multi_store_case(k, plan):
+        pathA = os.path.join(ctx.work, "multi_%d_A.sqlite" % k)
+        pathB = os.path.join(ctx.work, "multi_%d_B.sqlite" % k)
+        seed = rng.getrandbits(31)
+        random.seed(seed)
+        np.random.seed(seed)
+        case = {"kind": "multi-store", "name": None, "description": "c10", "params": None, "costs": None, "ops": [], "plan": plan, "seed": seed,
+                "store": {"mode": "write", "thread_safe": True, "pre": "none", "destroy": True}}
+        todo = []
+        obs = None
+        try:
+            with shallow():
+                # the older, smaller study
+                old = RunProblem()
+                todo.append(old)
+                old.data_store = SqliteDataStore(old, database_name=pathB)
+                a_sweep(old, plan["old"], 1).run()
+                old.data_store.destroy()
+                old_ids = [i.id for i in old.individuals]
+                # the current study: first run
+                m, mk = {"sweep": (1, a_sweep), "nsga2": (2, popalg("algorithm_NSGAII", "NSGAII"))}[plan["first"]]
+                problem = (RunProblem2 if m == 2 else RunProblem)()
+                todo.append(problem)
+                case.update(name=problem.name, params=[describe(p) for p in problem.parameters], costs=[describe(c) for c in problem.costs])
+                store = SqliteDataStore(problem, database_name=pathA)
+                problem.data_store = store
+                real_ind, real_all = store.sync_individual, store.sync_all
+
+                def rec_ind(individual):
+                    case["ops"].append({"op": "sync", "ind": describe_ind(individual)})
+                    return real_ind(individual)
+
+                def rec_all():
+                    case["ops"].append({"op": "sync_all", "inds": [describe_ind(i) for i in problem.individuals]})
+                    return real_all()
+                store.sync_individual, store.sync_all = rec_ind, rec_all
+                mk(problem, plan["n1"], 2).run()
+                counter_before = Individual.counter
+                for how in plan["reads"]:
+                    target = pathA if how.endswith(":A") else pathB
+                    if how.startswith("view"):
+                        v = ProblemViewDataStore(database_name=target)
+                    else:
+                        v = RunProblem()
+                        v.data_store = SqliteDataStore(v, database_name=target, mode="read" if how.startswith("read") else "write")
+                        v.data_store.destroy()
+                    todo.append(v)
+                counter_after = Individual.counter
+                if counter_after < counter_before:
+                    note_mismatch("reading a store (%r) moved Individual.counter from %d back to %d: in the model ids are given once; the unchanged "
+                                  "from_dict only draws further ids" % (plan["reads"], counter_before, counter_after), dict(case, ops="…"))
+                # the current study continued on the same problem and store
+                for n2 in plan["more"]:
+                    a_sweep(problem, n2, 1).run()
+                final = [describe_ind(i) for i in problem.individuals]
+                live_ids = [i.id for i in problem.individuals]
+                store.destroy()
+                obs = read_back(pathA)
+        except Exception as e:
+            fail("history over several stores raised %s: %s" % (type(e).__name__, str(e)[:200]), dict(case, ops="%d recorded store calls" % len(case["ops"])), "run raises")
+            gc.collect()
+            return
+        finally:
+            for p_ in todo:
+                dispose(p_)
+        small = dict(case, ops="%d recorded store calls" % len(case["ops"]), recorded_individuals=len(final), ids_of_the_older_store=old_ids,
+                     ids_of_the_recorded_individuals=live_ids)
+        want = {}
+        for d in final:
+            want[d["id"]] = d
+        if len(want) != len(final):
+            dup = sorted(i for i in set(live_ids) if live_ids.count(i) > 1)
+            fail("recorded individuals of ONE problem share ids %r after another store was read (%d individuals, %d distinct ids): ids of "
+                 "live individuals must stay unique" % (dup[:6], len(final), len(want)), small, "recorded ids unique", ids=dup[:20])
+        if "error" not in obs and len(obs["raw"]) < len(final):          # (NSGA-II also stores offspring it does not record: more rows are fine)
+            fail("%d individuals recorded by the runs on store A, %d rows in the store" % (len(final), len(obs["raw"])), small, "row per recorded individual")
+        oracle(small, obs, want, False)
+        rcases.append(enc_case(case))
+        rexpected.append(enc_expected(obs))
+        rmeta.append(small)
+        h = hist.setdefault("several_stores_in_one_process", {"histories": 0, "store_reads": 0, "recorded": 0, "rows": 0, "reads": {}})
+        h["histories"] += 1
+        h["store_reads"] += len(plan["reads"])
+        h["recorded"] += len(final)
+        h["rows"] += len(obs.get("raw", []))
+        for how in plan["reads"]:
+            h["reads"][how] = h["reads"].get(how, 0) + 1
+        census(case["ops"])
+        ctx.count(("multi", json.dumps(plan["reads"]), plan["old"], plan["n1"], tuple(plan["more"]), len(final)), nontrivial=True)
+        for pth in (pathA, pathB):
+            try:
+                os.remove(pth)
+            except OSError:
+                pass
+
     # the run directed at finding F12 first (its failure must be reported under its own match, before other failures saturate)
     run_case("sweep_integer_designs", 1, a_sweep_int, 3, 1, 99)
 
@@ -1558,6 +1664,22 @@ def run(ctx):
             k += 1
     for name, why in sorted(skipped.items()):
         ctx.notes.append("algorithm %s not exercised: %s" % (name, why))
+
+    # ---- several stores in one process: an older store is read between two runs on the same problem and store -------
+    plans = [{"old": 4, "first": "sweep", "n1": 4, "reads": ["view:B"], "more": [8]},                      # the red team's demo
+             {"old": 2, "first": "nsga2", "n1": 3, "reads": ["write:B"], "more": [3]},
+             {"old": 3, "first": "sweep", "n1": 3, "reads": ["read:B", "view:B", "view:B", "view:A"], "more": [2, 3]},
+             {"old": 1, "first": "sweep", "n1": 2, "reads": ["view:A", "view:B"], "more": [5]},
+             {"old": 5, "first": "sweep", "n1": 1, "reads": [], "more": [3]}]                                   # control: no read in between
+    for rep in range(ctx.pick(1, 4)):
+        for j, plan in enumerate(plans):
+            if saturated():
+                break
+            pl_ = dict(plan)
+            if rep:
+                pl_.update(old=rng.randint(1, 6), n1=rng.randint(1, 5), more=[rng.randint(1, 6) for _ in range(rng.choice([1, 2]))])
+                pl_["reads"] = [rng.choice(["view:B", "view:B", "write:B", "read:B", "view:A"]) for _ in range(rng.randint(1, 4))]
+            multi_store_case(200 + 10 * rep + j, pl_)
 
     ctx.coq_compare("c10h", header(), "c10_case", "c10_obs", "c10_run", "c10_eqb", cases, expected, meta, shard=ctx.pick(20, 60))
     ctx.coq_compare("c10r", header(), "c10_case", "c10_obs", "c10_run", "c10_eqb", rcases, rexpected, rmeta, shard=ctx.pick(1, 3))
